@@ -208,6 +208,13 @@ def run_check(module, tier, seed, jobs, deadline_s):
                           if s.name in capped) != total:
             raise InternalError('case count mismatch')
 
+    if agg['nontrivial'] < getattr(module, 'MIN_NONTRIVIAL', 2) \
+            and not agg['viol'] and not capped:
+        raise InternalError(
+            'vacuous exploration: only %d of %d cases were non-trivial '
+            '(rule: see RULE); the check cannot conclude anything'
+            % (agg['nontrivial'], agg['n']))
+
     # ---- violations: determinism, known findings, replay files
     known = load_known_findings()
     open_findings = [f for f in known.get('findings', [])
